@@ -46,8 +46,10 @@ META = {
     "level_text": "Coq theorems for EVERY schedule (list nat of any length), any number of threads, any nonce sequences, any "
     "capacity > 0 and ttl: size <= capacity; an accepted nonce is rejected while the clock at the later check's locked section "
     "is below t0+ttl and fewer than capacity distinct other nonces arrived; first-two-checks atomicity; k threads on one fresh "
-    "nonce -> exactly one winner.  The code shape in the theorems is regenerated from the source on every run; the hand "
-    "model of the locked body is tied by replaying schedules against the real cache step by step.",
+    "nonce -> exactly one winner; gate level: with cache ttl > 2*skew an accepted proof is refused whenever it is presented again "
+    "while it still passes the timestamp step.  The code shape, the gate's ttl expression and the timestamp guards in the theorems "
+    "are regenerated from the source on every run; the hand model of the locked body is tied by replaying schedules against the "
+    "real cache step by step, the gate-level statement is checked on the real proxy_proof_gate under logical clocks.",
     "level_note": "Assumed (trusted): code between two scheduling points (clock read outside the lock; lock acquisition) is "
     "atomic w.r.t. the other threads -- true under the harness by construction, and under CPython because every access to "
     "_entries/_evicted/_replays is inside `with self._lock` (checked structurally by the translator).  Times are naturals in "
@@ -223,27 +225,49 @@ def impl_run(sc: Scenario) -> tuple[dict[str, Any] | None, str | None]:
         return None, f"HarnessError: {e}"
 
 
-def replay(ctx: Any, path: str) -> int:
-    data = json.loads(open(path).read())
-    sc_d = data["replay"]["scenario"]
+def replay(ctx: Any, data: Any) -> int:
+    """Re-run exactly the recorded input against the REAL code; a reproduced failure is registered on ctx."""
+    if isinstance(data, str):
+        data = json.loads(open(data).read())
+    r = data.get("replay", data)
+    if r.get("gate"):
+        second_at = r.get("second_presentation_at_ts_plus", r["first_presentation_at_ts_plus"])
+        first, second = gate_scenario(r["skew_seconds"], r["first_presentation_at_ts_plus"], second_at, r.get("other_nonces_between", 0))
+        print(f"real proxy_proof_gate, skew={r['skew_seconds']}: first presentation at ts{r['first_presentation_at_ts_plus']:+g}s -> {first}; second at ts{second_at:+g}s -> {second}")
+        if first == "ok" and second == "ok":
+            ctx.violation("cache-ttl-shorter-than-token-validity", "accepted twice inside its validity window", r)
+        elif (first, second) != ("ok", "replayed"):
+            ctx.violation(data.get("key", "gate-level"), f"gate answered {first}, {second}", r)
+        return 0
+    sc_d = r["scenario"]
     sc: Scenario = (sc_d["capacity"], sc_d["ttl"], tuple(tuple(p) for p in sc_d["programs"]), tuple(sc_d["schedule"]))
     res, err = impl_run(sc)
-    print("scenario:", sc_d)
-    if res is None:
-        print("constructor refused / harness error:", err)
-        return 1 if err else 0
-    for i, s in enumerate(res["snaps"]):
-        print(f" step {i} id={sc[3][i]}: clk={s[0]} entries={s[1]} evicted={s[2]} replays={s[3]} phases={s[4]}")
-    print(" events (tid, nonce, clock read, clock at locked section, accepted):", res["events"])
-    bad, _ = oracle(sc[0], sc[1], res)
-    for key, what, _d in bad:
-        print(f"VIOLATION property=C23 {key}: {what}")
-    return 1 if bad else 0
+    if err is not None:
+        ctx.obligation("harness:scheduler", "harness", False, err)
+        return 1
+    if res is not None:
+        for i, sn in enumerate(res["snaps"]):
+            print(f" step {i} id={sc[3][i]}: clk={sn[0]} entries={sn[1]} evicted={sn[2]} replays={sn[3]} phases={sn[4]}")
+        print(" events (tid, nonce, clock read, clock at locked section, accepted):", res["events"])
+        bad, _ = oracle(sc[0], sc[1], res)
+        for key, what, detail in bad:
+            ctx.violation(key, what, {"scenario": sc_d, "events": res["events"], **detail})
+    shape = translate(ctx)
+    co = True if shape is None else bool(shape["clock_outside"])
+    ok, badidx, clog = ctx.coq_mismatches(HEADER, "run_case", "case_out_eqb", [(render_in(sc, co), render_out(res))], "case_in", "case_out")
+    if not ok or badidx:
+        ctx.violation("model-impl-disagree", "the real NonceCache and the model differ on this schedule", {"scenario": sc_d, "impl": render_out(res), "log": clog[-500:]})
+    return 0
 
 
 # ---- gate level: the REAL proxy_proof_gate under logical clocks ---------------------------------------------
-def gate_level(ctx: Any) -> None:
-    """Present a proof, then present it again while it still passes the timestamp step; the second must be refused."""
+_WALL0, _MONO0, _TS_REL = 1_700_000_000, 5000.0, 1000
+_SECRET = bytes(range(32))
+
+
+def gate_scenario(skew: int, first_at: float, second_at: float, fillers: int) -> tuple[str, str]:
+    """Build the REAL gate (require mode), present a proof dated ts at ts+first_at, `fillers` other proofs in between,
+    and the same proof again at ts+second_at.  Wall clock and monotonic clock advance together.  Returns both reasons."""
     import types
 
     import falcon.testing
@@ -251,80 +275,84 @@ def gate_level(ctx: Any) -> None:
     import vgi_rpc.http._proof as P
     import vgi_rpc.http._replay as R
 
-    wall0, mono0, ts_rel = 1_700_000_000, 5000.0, 1000
-    t = [0.0]  # seconds since the epoch of the scenario; wall and monotonic clock advance together
-    secret = bytes(range(32))
+    t = [0.0]
     saved = R.time
-    R.time = types.SimpleNamespace(monotonic=lambda: mono0 + t[0])  # NonceCache() inside the gate binds time.monotonic at construction
-    quick = ctx.tier == "quick"
-    ts_cases: list[tuple[str, str]] = []
+    R.time = types.SimpleNamespace(monotonic=lambda: _MONO0 + t[0])  # NonceCache() binds time.monotonic at construction
     try:
-        for skew in (1, 2, 3, 30):
-            cfg = P.ProxyProofConfig(mode="require", origin_id="worker-1", secrets={"k1": (secret, "proxy")}, skew_seconds=skew, replay_capacity=8)
-            offs = sorted({-skew, -skew + 1, -1, 0, 1, skew - 1, skew} & set(range(-skew, skew + 1)))
-            if not quick:
-                offs = list(range(-skew, skew + 1)) if skew <= 3 else sorted(set(offs) | set(range(-skew, skew + 1, 5)))
-            fracs = (0.0, 0.5, 0.9)
-            for d0 in offs:
-                for d1 in offs:
-                    if d1 < d0:
-                        continue
-                    for f0 in (0.0, 0.5):
-                        for f1 in fracs:
-                            if (d1 + f1) < (d0 + f0):
-                                continue
-                            for fillers in (0, 3):
-                                gate = P.proxy_proof_gate(cfg, now=lambda: int(wall0 + t[0]))
-                                ts = wall0 + ts_rel
-                                tok = P.mint_proof(secret, "k1", "worker-1", now=ts)
-
-                                def present(token: str) -> str:
-                                    try:
-                                        return str(gate(falcon.testing.create_req(headers={P.PROOF_HEADER: token}))["reason"])
-                                    except P.ProofError as e:
-                                        return e.reason
-
-                                t[0] = ts_rel + d0 + f0
-                                first = present(tok)
-                                for j in range(fillers):  # fewer than capacity other nonces in between
-                                    t[0] = ts_rel + d0 + f0 + (d1 + f1 - d0 - f0) * (j + 1) / (fillers + 1)
-                                    present(P.mint_proof(secret, "k1", "worker-1", now=int(wall0 + t[0])))
-                                t[0] = ts_rel + d1 + f1
-                                second = present(tok)
-                                ctx.count("gate_presentations", 2 + fillers)
-                                ctx.case(["gate", skew, d0, f0, d1, f1, fillers])
-                                ctx.tally("gate_skew", skew)
-                                if first != "ok":
-                                    ctx.violation(
-                                        "gate-refuses-valid-first-presentation", f"first presentation inside the timestamp window refused: {first}",
-                                        {"skew": skew, "ts_minus_now": -(d0 + f0)},
-                                    )
-                                elif second == "ok":
-                                    ctx.violation(
-                                        "cache-ttl-shorter-than-token-validity",
-                                        f"skew={skew}: a proof dated ts is accepted at ts{d0 + f0:+g}s and accepted AGAIN at ts{d1 + f1:+g}s, where it still passes the "
-                                        f"timestamp step (valid for whole seconds ts-{skew}..ts+{skew}); the gate's NonceCache forgot the nonce after "
-                                        f"ttl = {_GATE_SHAPE.get('ttl_mul', '?')}*skew+{_GATE_SHAPE.get('ttl_add', '?')} s",
-                                        {"skew_seconds": skew, "first_presentation_at_ts_plus": d0 + f0, "second_presentation_at_ts_plus": d1 + f1,
-                                         "other_nonces_between": fillers, "replay_capacity": 8, "results": [first, second],
-                                         "how": "ProxyProofConfig(mode='require', skew_seconds=skew); proxy_proof_gate(cfg, now=wall); _replay.time.monotonic advanced with wall"},
-                                    )
-                                elif second != "replayed":
-                                    ctx.violation("gate-replay-refused-for-other-reason", f"second presentation refused with {second}, not replayed", {"skew": skew, "d0": d0 + f0, "d1": d1 + f1})
-            # the timestamp step of the model against the real verify_proof (no cache)
-            for d in range(-skew - 2, skew + 3):
-                ts = wall0 + ts_rel
-                tok = P.mint_proof(secret, "k1", "worker-1", now=ts)
-                try:
-                    P.verify_proof(tok, secrets=cfg.secrets, origin_id="worker-1", skew_seconds=skew, nonce_cache=None, now=ts + d)
-                    real = True
-                except P.ProofError as e:
-                    real = False
-                    if e.reason not in ("expired", "not_yet_valid"):
-                        ctx.violation("ts-step-other-reason", f"timestamp probe refused with {e.reason}", {"skew": skew, "d": d})
-                ts_cases.append((f"({skew}%Z, {ts}%Z, {ts + d}%Z)", "true" if real else "false"))
+        cfg = P.ProxyProofConfig(mode="require", origin_id="worker-1", secrets={"k1": (_SECRET, "proxy")}, skew_seconds=skew, replay_capacity=8)
+        gate = P.proxy_proof_gate(cfg, now=lambda: int(_WALL0 + t[0]))
     finally:
         R.time = saved
+
+    def present(token: str) -> str:
+        try:
+            return str(gate(falcon.testing.create_req(headers={P.PROOF_HEADER: token}))["reason"])
+        except P.ProofError as e:
+            return e.reason
+
+    tok = P.mint_proof(_SECRET, "k1", "worker-1", now=_WALL0 + _TS_REL)
+    t[0] = _TS_REL + first_at
+    first = present(tok)
+    for j in range(fillers):  # fewer than capacity other nonces in between
+        t[0] = _TS_REL + first_at + (second_at - first_at) * (j + 1) / (fillers + 1)
+        present(P.mint_proof(_SECRET, "k1", "worker-1", now=int(_WALL0 + t[0])))
+    t[0] = _TS_REL + second_at
+    return first, present(tok)
+
+
+def gate_level(ctx: Any) -> None:
+    """Present a proof, then present it again while it still passes the timestamp step; the second must be refused."""
+    import vgi_rpc.http._proof as P
+
+    quick = ctx.tier == "quick"
+    ts_cases: list[tuple[str, str]] = []
+    for skew in (1, 2, 3, 30):
+        offs = sorted({-skew, -skew + 1, -1, 0, 1, skew - 1, skew} & set(range(-skew, skew + 1)))
+        if not quick:
+            offs = list(range(-skew, skew + 1)) if skew <= 3 else sorted(set(offs) | set(range(-skew, skew + 1, 5)))
+        for d0 in offs:
+            for d1 in offs:
+                for f0 in (0.0, 0.5):
+                    for f1 in (0.0, 0.5, 0.9):  # int(time.time()) keeps ts+skew+0.9 inside the window
+                        if d1 + f1 < d0 + f0:
+                            continue
+                        for fillers in (0, 3):
+                            first, second = gate_scenario(skew, d0 + f0, d1 + f1, fillers)
+                            ctx.count("gate_presentations", 2 + fillers)
+                            ctx.case(["gate", skew, d0, f0, d1, f1, fillers])
+                            ctx.tally("gate_skew", skew)
+                            if first != "ok":
+                                ctx.violation(
+                                    "gate-refuses-valid-first-presentation", f"first presentation inside the timestamp window refused: {first}",
+                                    {"gate": True, "skew_seconds": skew, "first_presentation_at_ts_plus": d0 + f0},
+                                )
+                            elif second == "ok":
+                                ctx.violation(
+                                    "cache-ttl-shorter-than-token-validity",
+                                    f"skew={skew}: a proof dated ts is accepted at ts{d0 + f0:+g}s and accepted AGAIN at ts{d1 + f1:+g}s, where it still passes the "
+                                    f"timestamp step (valid for whole seconds ts-{skew}..ts+{skew}); the gate's NonceCache forgot the nonce after "
+                                    f"ttl = {_GATE_SHAPE.get('ttl_mul', '?')}*skew+{_GATE_SHAPE.get('ttl_add', '?')} s",
+                                    {"gate": True, "skew_seconds": skew, "first_presentation_at_ts_plus": d0 + f0, "second_presentation_at_ts_plus": d1 + f1,
+                                     "other_nonces_between": fillers, "replay_capacity": 8, "results": [first, second],
+                                     "how": "ProxyProofConfig(mode='require', skew_seconds=skew); proxy_proof_gate(cfg, now=wall); _replay.time.monotonic advanced with wall"},
+                                )
+                            elif second != "replayed":
+                                ctx.violation(
+                                    "gate-replay-refused-for-other-reason", f"second presentation refused with {second}, not replayed",
+                                    {"gate": True, "skew_seconds": skew, "first_presentation_at_ts_plus": d0 + f0, "second_presentation_at_ts_plus": d1 + f1, "other_nonces_between": fillers},
+                                )
+        # the timestamp step of the model against the real verify_proof (no cache)
+        for d in range(-skew - 2, skew + 3):
+            ts = _WALL0 + _TS_REL
+            tok = P.mint_proof(_SECRET, "k1", "worker-1", now=ts)
+            try:
+                P.verify_proof(tok, secrets={"k1": (_SECRET, "proxy")}, origin_id="worker-1", skew_seconds=skew, nonce_cache=None, now=ts + d)
+                real = True
+            except P.ProofError as e:
+                real = False
+                if e.reason not in ("expired", "not_yet_valid"):
+                    ctx.violation("ts-step-other-reason", f"timestamp probe refused with {e.reason}", {"gate": True, "skew_seconds": skew, "d": d})
+            ts_cases.append((f"({skew}%Z, {ts}%Z, {ts + d}%Z)", "true" if real else "false"))
     ok, bad, clog = ctx.coq_mismatches(HEADER + "\nFrom Coq Require Import ZArith.", "run_ts_case", "Bool.eqb", ts_cases, "Z * Z * Z", "bool")
     ctx.obligation("correspondence:M_Nonce.run_ts_case (verify_proof timestamp step)", "correspondence", ok and not bad, clog if not ok else f"{len(bad)} of {len(ts_cases)} differ")
 
